@@ -57,6 +57,31 @@ def core(t):
     return t
 
 
+def fold_consts(t):
+    """The term with operations on two literal operands evaluated (`64 - 1` -> 63): spelling `(n + (W - 1)) / W` for
+    `(n + W - 1) / W` changes when the addition overflows, not what a formula rule is about."""
+    if not isinstance(t, tuple) or not t:
+        return t
+    if t[0] == "bin":
+        a, b = fold_consts(t[2]), fold_consts(t[3])
+        ca, cb = core(a), core(b)
+        if ca[0] == "const" and cb[0] == "const" and isinstance(ca[1], int) and isinstance(cb[1], int):
+            x, y = ca[1], cb[1]
+            try:
+                v = {"Add": x + y, "Sub": x - y, "Mul": x * y, "Div": x // y if y else None, "Shl": x << y if 0 <= y < 128 else None,
+                     "Shr": x >> y if 0 <= y < 128 else None, "BitAnd": x & y, "BitOr": x | y}.get(t[1])
+            except Exception:
+                v = None
+            if v is not None and v >= 0:
+                return ("const", v)
+        return ("bin", t[1], a, b)
+    if t[0] in ("cast", "ref", "deref"):
+        return (t[0], fold_consts(t[1])) + t[2:]
+    if t[0] == "call":
+        return (t[0], t[1], tuple(fold_consts(x) for x in t[2])) + t[3:]
+    return t
+
+
 def self_path(t):
     path = []
     while isinstance(t, tuple) and t:
